@@ -1065,7 +1065,7 @@ class HtmlBlock(BlockToken):
     which holds the raw HTML content.
     """
     _end_cond = None
-    multiblock = re.compile(r'<(pre|script|style|textarea)[ >\n]', re.IGNORECASE)
+    multiblock = re.compile(r'<(pre|script|style|textarea)[ \t>\n]', re.IGNORECASE)
     predefined = re.compile(r'<\/?(.+?)(?:\/?>|[ \n])')
     custom_tag = re.compile(r'(?:' + '|'.join((span_token._open_tag,
                                 span_token._closing_tag)) + r')\s*$')
